@@ -1165,6 +1165,9 @@ func (fr *Frame) execBlock(b *ssa.BasicBlock) {
 					if c.Thor && !fr.ex.thorough {
 						continue
 					}
+					if c.HeadOnly && b != li.header {
+						continue
+					}
 					cur := map[string]*Val{}
 					for _, in := range li.header.Instrs {
 						if phi, ok := in.(*ssa.Phi); ok {
@@ -1419,4 +1422,20 @@ func (fr *Frame) placeAsserts() {
 func isFloat64(t types.Type) bool {
 	b, ok := t.Underlying().(*types.Basic)
 	return ok && (b.Kind() == types.Float64 || b.Kind() == types.UntypedFloat)
+}
+
+// leadsOnlyToReturn: from b, control reaches a return through a straight line of blocks.
+func leadsOnlyToReturn(b *ssa.BasicBlock) bool {
+	for n := 0; n < 8 && b != nil; n++ {
+		if len(b.Instrs) > 0 {
+			if _, isRet := b.Instrs[len(b.Instrs)-1].(*ssa.Return); isRet {
+				return true
+			}
+		}
+		if len(b.Succs) != 1 {
+			return false
+		}
+		b = b.Succs[0]
+	}
+	return false
 }
